@@ -320,6 +320,7 @@ pub fn run(tier: Tier) -> i32 {
         }
     }
     rep.set("rule", json!(format!("Documents of 1-2 (thorough: 3) items from {} items with known contribution to the extent: every bbox-bearing kind (rect, circle, ellipse, line, polyline, polygon, absolute and relative path, image, foreignObject, nested svg, use of rect/circle/symbol), standalone text (anchor point), shape with generated text outside (adds only the shape), box (invisible, included), point (nothing), groups with no/translate/uniform/non-uniform/mirroring/combined transforms, a shape with its own transform, a clipped shape, content of defs/specs/symbol/marker/pattern (nothing), a forward-referenced pair, a loop, a reuse x border {{0,5,13}} x scale {{1,2.5,0.5}} x 9 root attribute sets (none, width with unit, height in percent, both, viewBox, viewBox+width, viewBox+height, all, version+xmlns:xlink). Reference model: union of the known boxes, grown by the border, rounded outward; viewBox = that box; width/height = size x scale in mm; supplied attributes verbatim; a single supplied dimension determines the other by the aspect ratio with the same unit; version/xmlns only when missing. Non-trivial = Ok, non-empty extent, all root attributes as expected.", ITEMS.len())));
+    rep.set("also", json!("Also: transforms on <use> and <a>, transform combined with clip-path (on a group, on a shape, and a <use> of such a group), url() references written with quotes / blanks, clip-path on <reuse>, clipPath / mask / marker / pattern / gradient / filter written outside <defs>, variables and expressions in a group's transform, standalone text whose anchor is read from the OUTPUT (relative, text-loc, at a corner, with tspan child, with its own transform), paths with several sub-paths, root width / height given as plain numbers, a root wrapped in <if> / <loop>; derived dimensions must never be inf / NaN."));
     let st = run_space(cases.len(), |i| check(&cases[i]));
     rep.sample(json!({"doc": document(&cases[cases.len() / 2]), "border": cases[cases.len() / 2].border}));
     rep.sample(json!({"doc": document(&cases[5])}));
